@@ -229,6 +229,14 @@ func (r *Reader) decodeG3ScanLine2D() {
 
 	tp := r.readBits(1)
 	if tp == 1 { // 1D mode
+		if !r.IgnoreEndOfBlock && r.err == nil && r.peekBits(11) == 0 {
+			// EOL+1 followed by another EOL instead of a row (no run
+			// code starts with 11 zeros): the return-to-control
+			// sequence of six EOL+1 ends the data.
+			r.line = r.line[:0]
+			r.err = io.EOF
+			return
+		}
 		r.decodeG3ScanLine1D()
 	} else { // 2D mode
 		r.decode2D()
